@@ -105,8 +105,9 @@ def _attach_in(body, fns, closures, depth, stack):
         if recv is not None:
             mapping["self"] = recv
         for names, arg in zip(params, x["args"]):
-            # for the purposes of shape analysis a parameter stands for its argument expression
-            if len(names) == 1 and (_simple(arg) or callee in closures):
+            # for the purposes of shape analysis a parameter stands for its argument expression (a compound argument only
+            # where the callee mentions the parameter once, so that nothing is duplicated)
+            if len(names) == 1 and (_simple(arg) or callee in closures or sum(1 for y in q.walk(cbody) if y["k"] == "Path" and y.get("p") == names[0]) <= 1):
                 mapping[names[0]] = arg
         _subst(b, mapping)
         x["inl"] = {"k": "Inl", "callee": callee, "closure": callee in closures and k == "Call" and "::" not in x["f"]["p"], "params": [(n[0] if n else None) for n in params], "body": b, "l": x.get("l", 0)}
